@@ -715,10 +715,8 @@ func (r *rewriter) rewriteFile() string {
 			}
 		}
 	}
-	extra := ""
-	if usedBody {
-		extra += `; import vrt__ "anndbverif/vrt"`
-	}
+	extra := `; import vrt__ "anndbverif/vrt"`
+	_ = usedBody
 	if usesFakes {
 		extra += `; import vrtfakes__ "anndbverif/vrt/fakes"`
 	}
@@ -751,6 +749,12 @@ func (r *rewriter) rewriteFile() string {
 		}
 	}
 	body = strings.Join(lines, "\n")
-	fmt.Fprintf(&hdr, "//go:build %s\n\n//line %s:1\n", constraint, r.fset.Position(f.Pos()).Filename)
-	return hdr.String() + body
+	// NOTE: no //line directive: with one, cmd/compile (1.23) no longer finds the file's language
+	// version for loop statements and silently switches to per-iteration loop variables.
+	// The two header lines are accounted for by vrt.Instrumented(2).
+	fmt.Fprintf(&hdr, "//go:build %s\n\n", constraint)
+	if !strings.HasSuffix(body, "\n") {
+		body += "\n"
+	}
+	return hdr.String() + body + "\nfunc init() { vrt__.Instrumented(2) }\n"
 }
